@@ -1026,7 +1026,9 @@ func init() {
 				got, _ := c10CmpObserve(m["a"], m["b"])
 				return got
 			},
-			"api-reused": func(json.RawMessage) string { return "needs the history of the schema object: not replayable from the case alone" },
+			"api-reused": func(json.RawMessage) string {
+				return "needs the history of the schema object: not replayable from the case alone"
+			},
 			"api": func(raw json.RawMessage) string {
 				var cs c10APICase
 				if err := json.Unmarshal(raw, &cs); err != nil {
